@@ -967,7 +967,8 @@ def run(ctx):
     ctx.do(r10_8)
     ctx.do(r10_9)
     from . import c06 as _c06
-    ctx.do(_c06.r6_10)  # no command is queued on a mailbox whose management task is gone
+    ctx.do(_c06.r6_10)
+    ctx.do(_c06.r6_7b)  # one Mailbox object, one queue per folder  # no command is queued on a mailbox whose management task is gone
     from . import c01
     ctx.do(c01.r1_5)
     from . import c20 as _c20
